@@ -693,10 +693,18 @@ func RuleBroadcastHelper(r *Report, p *Program) {
 			if ln.String() != "{64}" {
 				continue
 			}
+			decoded := false
 			for k, v := range pa.State.Bools {
-				if strings.HasPrefix(k, "isnil(codec.UnmarshalAs") && strings.Contains(k, "("+dg+",") && v {
-					want = append(want, strings.TrimSuffix(strings.TrimPrefix(k, "isnil("), "#1)")+"#0")
+				if strings.HasPrefix(k, "isnil(codec.UnmarshalAs") && strings.Contains(k, "("+dg+",") {
+					decoded = true
+					if v {
+						want = append(want, strings.TrimSuffix(strings.TrimPrefix(k, "isnil("), "#1)")+"#0")
+					}
 				}
+			}
+			if !decoded {
+				// a 64-byte reply that is dropped before the decoder sees it: some other condition filters replies
+				bad = "a 64-byte reply is discarded without being decoded under [" + cut(pa.State.Describe(), 200) + "]: only the length and the decoder decide which replies are kept"
 			}
 		}
 		var have []string
